@@ -7,11 +7,11 @@ from common import *
 ID = 'C20'
 PKG = 'control'
 C = MOD + '/control.'
-ROOTS = [C + 'VerifC20Op', C + 'VerifC20Confine']
+ROOTS = [C + 'VerifC20Op', C + 'VerifC20Confine', C + 'VerifC20Seq']
 META = dict(
     functions_encoded=['(*DSC).Copy/Move/Remove/AbsFiles', '(*Changes).Copy/Move/Remove/AbsFiles', 'internal.Copy', 'path.Join', 'path.Clean', 'filepath.Dir', 'filepath.Base'],
     stubs=['package os and io.Copy on files: a deterministic filesystem model (engine/symgo/osmodel.py): paths -> file content | directory | symbolic link (followed in the final component by open/create/stat/read, not by rename/remove/link); failures are those a real filesystem gives for the modelled state (missing source, a directory where a file is expected, a directory in the way of the destination); every call is logged with its path'],
-    bounds={'quick': 'handles with k = 0..2 referenced files, both kinds, all three operations; fault configuration symbolic: every referenced file ok / missing / replaced by a directory (Copy) / a relative symbolic link to the real file (Copy, Remove), the control file ok / missing / a directory, a directory blocking any one destination name, a stale same-size file already at a destination name; confinement: one listed name ranging over every string of length 0..4 over {".", "/", "a"}',
+    bounds={'quick': 'handles with k = 0..2 referenced files, both kinds, all three operations; fault configuration symbolic: every referenced file ok / missing / replaced by a directory (Copy) / a relative symbolic link to the real file (Copy, Remove), the control file ok / missing / a directory, a directory blocking any one destination name, a stale same-size file already at a destination name; two-step sequences on one handle (Copy, then Remove / Move / Copy elsewhere); confinement: one listed name ranging over every string of length 0..4 over {".", "/", "a"}',
             'thorough': 'k = 0..3; listed names up to length 6'},
     outside_claim=['Move of a referenced file that is a relative symbolic link (rename(2) moves the link text; links are not in the statement\'s quantifier)', 'a control file opened through a symbolic link (which directory is then its own is not fixed by the statement)', 'faults a real filesystem produces only under resource exhaustion (ENOSPC, EIO at Close): they are not natively replayable in this sandbox and are not modelled', 'concurrent modification of the directories'],
     assumptions=['the destination exists and is a directory'])
@@ -23,6 +23,8 @@ def jobs(tier):
     js = []
     for op, kind, k in itertools.product((0, 1, 2), (0, 1), range(K + 1)):
         js.append(dict(name='op%d_kind%d_k%d' % (op, kind, k), kind='op', op=op, hk=kind, k=k))
+    for kind, k, second in itertools.product((0, 1), range(K + 1), (0, 1, 2)):
+        js.append(dict(name='seq_kind%d_k%d_%d' % (kind, k, second), kind='seq', hk=kind, k=k, second=second))
     for op, kind in itertools.product((0, 1, 2), (0, 1)):
         for n in range(0, N + 1):
             js.append(dict(name='confine_op%d_kind%d_n%d' % (op, kind, n), kind='confine', op=op, hk=kind, n=n))
@@ -53,6 +55,9 @@ def run_job(env, job):
             pass
         return run_harness(env, PKG, 'VerifC20Op', [op, job['hk'], k] + s + [ctl, block, stale], assume, unwind=200,
                            sample='%s on a %s with %d referenced files, symbolic fault configuration' % (['Copy', 'Move', 'Remove'][op], ['.dsc', '.changes'][job['hk']], k))
+    if job['kind'] == 'seq':
+        return run_harness(env, PKG, 'VerifC20Seq', [job['hk'], job['k'], job['second']], [], unwind=200,
+                           sample='Copy, then %s on the same %s handle with %d referenced files' % (['Remove', 'Move elsewhere', 'Copy elsewhere'][job['second']], ['.dsc', '.changes'][job['hk']], job['k']))
     name = symstr('n', job['n'])
     return run_harness(env, PKG, 'VerifC20Confine', [job['op'], job['hk'], name], [in_set(c, b'./a') for c in name], unwind=200,
                        sample='%s with one listed name ranging over every string of length %d over {., /, a}; sentinels outside the source directory' % (['Copy', 'Move', 'Remove'][job['op']], job['n']))
@@ -75,6 +80,8 @@ def validation_calls(env, seed):
     calls.append(('VerifC20Op', [0, 0, 2, 3, 0, 0, 0, 0, 0]))
     calls.append(('VerifC20Op', [0, 1, 2, 0, 3, 0, 0, 0, 2]))
     calls.append(('VerifC20Op', [2, 0, 1, 3, 0, 0, 0, 0, 0]))
+    for second in (0, 1, 2):
+        calls.append(('VerifC20Seq', [second % 2, 2, second]))
     calls.append(('VerifC20Confine', [0, 0, b'a']))
     calls.append(('VerifC20Confine', [1, 1, b'']))
     calls.append(('VerifC20Confine', [2, 1, b'aa']))
